@@ -454,7 +454,7 @@ static void prodcons_check_bounded() {
 // ------------------------------------------------------------------------------------------------
 // scenario heapdel (C10): remote frees into a heap that its owner deletes / collects meanwhile
 // ------------------------------------------------------------------------------------------------
-static std::atomic<int> g_hd_freed(0), g_hd_round(0), g_hd_stop(0);
+static std::atomic<int> g_hd_freed(0), g_hd_round(0), g_hd_stop(0), g_hd_tagged_rounds(0);
 static void hd_freer_body(void* arg) {
   ThreadCtx& t = *(ThreadCtx*)arg;
   while (!g_hd_stop.load(std::memory_order_acquire) || g_mail[t.tid].head.load(std::memory_order_acquire) != nullptr) {
@@ -470,7 +470,11 @@ static void hd_owner_body(void* arg) {
   mi_heap_t* backing = mi_heap_get_backing();
   for (int round = 0; round < C.rounds; round++) {
     vf_cur_op = (uint64_t)round;
-    mi_heap_t* H = mi_heap_new();
+    // one round in four uses a heap with a heap tag: such a heap cannot be merged into the backing heap when it is deleted, its pages are abandoned instead
+    // (every one of its blocks is then freed by the other threads: the owner's own free of such a block is known finding K2)
+    const bool tagged = vf_rng_chance(&t.rng, 1, 4);
+    if (tagged) g_hd_tagged_rounds.fetch_add(1);
+    mi_heap_t* H = (tagged ? mi_heap_new_ex(1 + (int)vf_rng_below(&t.rng, 5), false, (mi_arena_id_t)0) : mi_heap_new());
     if (H == nullptr) continue;
     int nb = (C.live > 64 ? C.live / 2 + (int)vf_rng_below(&t.rng, (uint64_t)C.live) : 4 + (int)vf_rng_below(&t.rng, 28));   // --live: many blocks per heap => many full pages (parallel runs)
     size_t n = (vf_rng_chance(&t.rng, 1, 2) ? 16 + (size_t)vf_rng_below(&t.rng, 100) : 900 + (size_t)vf_rng_below(&t.rng, 3000));
@@ -478,7 +482,7 @@ static void hd_owner_body(void* arg) {
     for (int i = 0; i < nb; i++) { MBlk b; if (do_alloc(t, &b, H, n)) bs.push_back(b); }
     // hand them to the other threads, which free them while we delete / collect the heap
     std::vector<MBlk> keep;
-    for (auto& b : bs) { if (vf_rng_chance(&t.rng, 1, 6)) keep.push_back(b); else { send_to(1 + (int)vf_rng_below(&t.rng, (uint64_t)K), b); sent++; } }
+    for (auto& b : bs) { if (!tagged && vf_rng_chance(&t.rng, 1, 6)) keep.push_back(b); else { send_to(1 + (int)vf_rng_below(&t.rng, (uint64_t)K), b); sent++; } }
     unsigned k = (unsigned)vf_rng_below(&t.rng, 4);
     vf_cur_what = "heap_delete racing remote frees";
     if (k == 0) { mi_heap_collect(H, false); mi_heap_delete(H); }
@@ -822,12 +826,19 @@ int main(int argc, char** argv) {
   replay_lifetimes();
   if (C.scenario == "prodcons") prodcons_check_bounded();
   if (C.scenario == "arena") arena_probe();
-  if (C.scenario == "exit" || C.scenario == "xfree" || C.scenario == "tiny" || C.scenario == "tinyx") final_exit_checks();
+  if (C.scenario == "exit" || C.scenario == "xfree" || C.scenario == "tiny" || C.scenario == "tinyx" || C.scenario == "heapdel") final_exit_checks();
   if (vf_err_count != 0 && C.scenario == "arena") {
     // a heap bound to a full arena reports "unable to allocate memory" (ENOMEM) for every failed claim: expected
     int n = vf_err_count; if (n > VF_MAX_ERRS) n = VF_MAX_ERRS; bool only = true;
     for (int i = 0; i < n; i++) if (vf_err_codes[i] != ENOMEM) only = false;
     if (only) vf_err_reset();
+  }
+  if (vf_err_count != 0 && C.scenario == "heapdel") {
+    // pages of a deleted tagged heap are adopted at the end by a thread that has no heap with that tag: mimalloc reports that as an error (EFAULT) by design and uses the adopting heap
+    int n = vf_err_count; if (n > VF_MAX_ERRS) n = VF_MAX_ERRS; bool only = true;
+    for (int i = 0; i < n; i++) if (vf_err_codes[i] != EFAULT) only = false;
+    // (release builds deliver the error code without the message text)
+    if (only && g_hd_tagged_rounds.load() > 0 && (strstr(vf_last_msgs, "cannot be reclaimed by a heap with the same tag") != nullptr || !C.debug)) vf_err_reset();
   }
   if (vf_err_count != 0) vf_trip("unexpected-error", REF, "mimalloc reported error %d (%s): %s", (int)vf_err_codes[0], strerror(vf_err_codes[0]), vf_last_msgs);
   vf_sched_stats_t st; vf_sched_get_stats(&st);
